@@ -599,6 +599,30 @@ def tiff_subimage(rep, fns):
     from . import p12
     rep.rule("S8a tiff tile readers: the extent of an edge tile is `(origin + tile < extent) ? tile : extent - origin`")
     p12.remaining_extent(rep, fns, "S8a-edge-tile", "S8a", lambda f: "reader::" in f["name"], 4)
+    # ---- S18 which tile routine runs is a question about the region
+    rep.rule("S18 tiff reader::read_tiled_data: the choice between read_tiled_data_subimage (clips to _settings) and read_tiled_data_full (never looks at _settings) is "
+             "made from the requested region (_settings._top_left, _settings._dim against the image extent), not from the dimensions of the destination view: a view of the "
+             "image's size that is given a smaller region otherwise receives the whole image")
+    done18 = False
+    for f in fns:
+        if not f["name"].endswith("reader::read_tiled_data") or done18 or f.get("body") is None:
+            continue
+        g18 = R.canonize(f)
+        ifs = [x for x, _ in R.find(g18["body"], lambda x: x.get("k") == "If")]
+        sel = [x for x in ifs if R.calls_in(x.get("then"), lambda n: n.endswith("read_tiled_data_subimage")) or R.calls_in(x.get("else"), lambda n: n.endswith("read_tiled_data_subimage"))]
+        if len(sel) != 1:
+            continue
+        done18 = True
+        rep.count("obligations:S18")
+        ck = R.key(sel[0]["cond"]).replace("this.", "")
+        uses_view = re.search(r"\$0\.(width|height|dimensions)\(\)", ck) is not None
+        uses_region = "_settings._dim" in ck and "_settings._top_left" in ck
+        key18 = "S18:tiff:read_tiled_data:routine choice"
+        if uses_view or not uses_region:
+            rep.violation("S18-tile-routine", key18, R.fn_where(f), {"condition": ck[:200], "example": "5x4 tiled file, region (0,0)+(4,1), destination view 5x4: the full-image routine runs and writes all 20 pixels"})
+        else:
+            rep.ok("S18-tile-routine", key18, ck[:200])
+    rep.floor("obligations:S18", 1)
     rep.rule("S8b read_tiled_data_subimage: corners are inclusive (origin + extent - 1) and a tile is skipped exactly when the inclusive rectangles are disjoint: "
              "tile.tl.x > view.lr.x || tile.tl.y > view.lr.y || tile.lr.x < view.tl.x || tile.lr.y < view.tl.y")
     done = False
